@@ -29,7 +29,7 @@ package anytype
 // value normalisation (C12)
 // ---------------------------------------------------------------------------
 
-//@ func parseVal trusted [C12 C05 C06]
+//@ func parseVal [C12 C05 C06]
 //@   requires okArg(val)
 //@   assigns  nothing
 //@   panics_iff !supp(val)
@@ -1062,3 +1062,10 @@ package anytype
 //@   ensures  new: isVObj(result) && fresh(r) && plain(r) && invO(r) && r.ptr == result && fresh(mapid(r.val))
 //@   ensures  keys: forall k str :: has(r.val, k) == old(has(ego.val, k))
 //@   ensures  vals: forall k str :: old(has(ego.val, k)) ==> copyF(mark(), old(ego.val[k]), r.val[k])
+
+//@ func NewObjectFrom trusted [C12 C13]
+//@   requires okArg(dict)
+//@   assigns  nothing
+//@   panics_iff !supp(dict)
+//@   plet r := obj(voref(result))
+//@   ensures  new: isVObj(result) && fresh(r) && plain(r) && invO(r) && r.ptr == result && fresh(mapid(r.val))
